@@ -1,6 +1,6 @@
 (* C11 property theorems.  Model: Model.v (legacy = false is the code with fixes/01 and fixes/02). *)
 From OlaBase Require Import Bytes.
-From C11 Require Import Gen Model Session Lemmas Term3 E120 Complete2 SessInv SessThm.
+From C11 Require Import Gen Model Session Lemmas Term3 E120 Complete2 SessInv SessThm Bound2.
 Local Open Scope N_scope.
 
 (* Termination, exactly-once completion and absence of the modelled hazards (dangling parent range,
@@ -156,6 +156,42 @@ Theorem c11_complete_any_state :
 Proof. exact complete_any_state_w. Qed.
 Print Assumptions c11_complete_any_state.
 
+(* ---------- number of bus transactions with conforming responders ----------
+   A full (inc = false) or incremental (inc = true) discovery against the conforming line of E120.v
+   completes - with status true and exactly the connected set - within
+       4 + (number of previously known UIDs, incremental only) + 98 * |S|
+   requests (3 un-mutes, one mute per previously known UID, and per responder at most 2*48+2 DUBs and
+   mutes, 48 = depth of the UID tree, plus the final silent DUB). *)
+Theorem c11_bounded_tx :
+  forall (S : list N) (coll : list N -> list N) (inc : bool) (s0 : st) (M0 : list N),
+    NoDup S -> (forall x, In x S -> x < 281474976710655) ->
+    (forall A, (2 <= length A)%nat -> decode (coll A) = DCollision) ->
+    exists n e M,
+      (n <= 4 + length (if inc then uids s0 else []) + 98 * length S)%nat /\
+      e_run S coll n (init inc s0) M0 = (e, M) /\
+      pending e = PIdle /\ completions e = completions s0 + 1 /\
+      result e = Some (true, uids e) /\ (forall x, In x (uids e) <-> In x S).
+Proof. exact bounded_tx_w. Qed.
+Print Assumptions c11_bounded_tx.
+
+(* ---------- a reply that arrives after Abort() (fixes/03) ----------
+   [s_late k a]: the target delivers the reply a to the request of kind k that was in flight when Abort()
+   was called; every callback returns at once when the range stack is empty. *)
+Theorem c11_late_reply :
+  forall (ss : sess) (k : pend) (a : answer),
+    (stack (ag ss) = [] -> s_late k a ss = ss) /\
+    (owner_act ss = ANone -> s_late k a (s_abort ss) = s_abort ss).
+Proof. exact (fun ss k a => conj (late_w ss k a) (late_after_abort_w ss k a)). Qed.
+Print Assumptions c11_late_reply.
+
+(* the UID constants typed into Model.v are the ones of ola/rdm/UID.h *)
+Theorem c11_uid_consts :
+  ALL_DEVICES_UID = UID_BROADCAST_U64 /\ UID_BROADCAST_U64 = UID_ALL_MANUFACTURERS * TWO32 + UID_ALL_DEVICES /\
+  TWO48 = UID_BROADCAST_U64 + 1 /\ UID_ALL_MANUFACTURERS = 65535 /\ UID_ALL_DEVICES = 4294967295 /\
+  UID_SIZE = 6 /\ 281474976710655 = UID_BROADCAST_U64.
+Proof. exact uid_consts_w. Qed.
+Print Assumptions c11_uid_consts.
+
 (* the limits the statement refers to are the ones of the header *)
 Theorem c11_constants :
   MAX_EMPTY_BRANCH_ATTEMPTS = 5 /\ MAX_BRANCH_FAILURES = 5 /\ MAX_MUTE_ATTEMPTS = 5 /\
@@ -199,3 +235,9 @@ Example c11_history_example :
                     (mkSess (mkSt [] [5; 6] [] [] [] 0 0 0 false false PIdle 0 None) 0 ANone 0 []) in
   events ss = [(0, false, [])] /\ queue (ag ss) = [] /\ uids (ag ss) = [] /\ owner ss = 1.
 Proof. vm_compute. repeat split. Qed.
+
+(* the transaction bound on a concrete population: 4 responders, 4 + 98*4 = 396 *)
+Example c11_bound_example :
+  let '(e, M) := e_run [7; 5; 281474976710654; 6] coll_ff 396 (init false idle0) [] in
+  pending e = PIdle /\ result e = Some (true, [5; 6; 7; 281474976710654]).
+Proof. vm_compute. split; reflexivity. Qed.
